@@ -22,13 +22,15 @@ Proof.
 Qed.
 
 Section Main.
+  Variable pol : se_policy.
+  Hypothesis PA : p_args_propagate pol = true.
   Variable fe : fenv.
   Hypothesis NW : no_writes fe.
   Variable s : store.
 
-  Definition thunk_of (p : nat * expr) : nat * thunk := (fst p, ceval fe (comp fe (snd p))).
+  Definition thunk_of (p : nat * expr) : nat * thunk := (fst p, ceval fe (comp pol fe (snd p))).
   Definition spec_of (p : nat * expr) : spec := (fst p, (tr fe s (snd p), val fe s (snd p))).
-  Definition arg_ok (a : expr) : Prop := tspec s (ceval fe (comp fe a)) (tr fe s a) (val fe s a).
+  Definition arg_ok (a : expr) : Prop := tspec s (ceval fe (comp pol fe a)) (tr fe s a) (val fe s a).
 
   Lemma pend_ok_map (L : list (nat * expr)) : Forall (fun p => arg_ok (snd p)) L -> pend_ok s (map thunk_of L) (map spec_of L).
   Proof. induction 1 as [|[i a] L H _ IH]; cbn [map]; constructor; auto. Qed.
@@ -43,15 +45,15 @@ Section Main.
   Proof. intros H. apply map_ext_in. exact H. Qed.
 
   (* at most one marked argument and silent unmarked ones => at most one noisy trace *)
-  Lemma amo_args args : (length (filter (fun b => b) (map (has_se fe) args)) < 2)%nat ->
+  Lemma amo_args args : (length (filter (fun b => b) (map (has_se pol fe) args)) < 2)%nat ->
     amo (map (tr fe s) args).
   Proof.
     unfold amo. intros H.
-    assert (G : (length (filter nonempty (map (tr fe s) args)) <= length (filter (fun b => b) (map (has_se fe) args)))%nat).
+    assert (G : (length (filter nonempty (map (tr fe s) args)) <= length (filter (fun b => b) (map (has_se pol fe) args)))%nat).
     { clear H. induction args as [|a args IH]; [cbn; lia|]. cbn [map filter].
-      destruct (has_se fe a) eqn:E.
+      destruct (has_se pol fe a) eqn:E.
       - destruct (nonempty (tr fe s a)); cbn [length]; lia.
-      - rewrite (unmarked_silent fe NW s a E). cbn [nonempty]. exact IH. }
+      - rewrite (unmarked_silent pol PA fe NW s a E). cbn [nonempty]. exact IH. }
     lia.
   Qed.
 
@@ -61,13 +63,13 @@ Section Main.
 
   Lemma call_plain f args t o :
     Forall arg_ok args ->
-    (length (filter (fun b => b) (map (has_se fe) args)) < 2)%nat ->
-    exists o', ceval fe (CCall f (map (comp fe) args)) (s, t) o =
+    (length (filter (fun b => b) (map (has_se pol fe) args)) < 2)%nat ->
+    exists o', ceval fe (CCall f (map (comp pol fe) args)) (s, t) o =
                ((s, rev (tr fe s (ECall f args)) ++ t), val fe s (ECall f args), o').
   Proof.
     intros Hargs Hcount. cbn [ceval]. rewrite mk_thunks, map_map.
     set (L := number O args).
-    assert (Eths : number O (map (fun x => ceval fe (comp fe x)) args) = map thunk_of L).
+    assert (Eths : number O (map (fun x => ceval fe (comp pol fe x)) args) = map thunk_of L).
     { unfold L. rewrite number_map. reflexivity. }
     rewrite Eths.
     pose proof (pend_ok_map L (Forall_number args O Hargs)) as Hok.
